@@ -48,7 +48,23 @@ func (i *inputString) nextCodePoint() rune {
 }
 
 func (i *inputString) currentIsInvalid() bool {
-	return i.runes[i.pointer] == utf8.RuneError
+	if i.runes[i.pointer] != utf8.RuneError {
+		return false
+	}
+	// a well-formed U+FFFD is three bytes long, an invalid byte decodes to U+FFFD with size one
+	_, size := utf8.DecodeRuneInString(i.s[i.currentByteOffset():])
+	return size == 1
+}
+
+// currentByteOffset returns the offset in s of the code point at pointer.
+// Every invalid byte in s is one U+FFFD in runes, so the offset can't be computed from the runes.
+func (i *inputString) currentByteOffset() int {
+	var pos int
+	for j := 0; j < i.pointer; j++ {
+		_, size := utf8.DecodeRuneInString(i.s[pos:])
+		pos += size
+	}
+	return pos
 }
 
 func (i *inputString) getCurrentAsByte() byte {
@@ -56,11 +72,7 @@ func (i *inputString) getCurrentAsByte() byte {
 		i.eof = true
 		return 0
 	}
-	var pos int
-	for j := 0; j < i.pointer; j++ {
-		pos += utf8.RuneLen(i.runes[j])
-	}
-	return i.s[pos]
+	return i.s[i.currentByteOffset()]
 }
 
 func (i *inputString) rewindLast() {
